@@ -990,6 +990,70 @@ fn forget_children(ctx: &mut Ctx) {
     }
 }
 
+// ---------------------------------------------------------------------------------------------
+// several threads attach at the same instant: exactly one may win
+
+#[derive(Clone, Debug, Serialize, Deserialize)]
+pub struct ConcAttachCase {
+    pub threads: u8,
+    pub jitter: Vec<u8>,
+    pub appends: u8,
+}
+
+pub fn check_concurrent_attach(case: &ConcAttachCase) -> CaseResult {
+    let _l = LOCK.lock().unwrap_or_else(|e| e.into_inner());
+    let got: Arc<Mutex<Vec<(u8, Id)>>> = Arc::new(Mutex::new(vec![]));
+    let nt = 2 + (case.threads % 3) as usize;
+    let barrier = std::sync::Barrier::new(nt);
+    let handles: Vec<Option<AttachHandle>> = std::thread::scope(|s| {
+        let hs: Vec<_> = (0..nt)
+            .map(|t| {
+                let got = got.clone();
+                let barrier = &barrier;
+                let jit = case.jitter.get(t).copied().unwrap_or(0);
+                s.spawn(move || {
+                    let sink = BoxEntrySink::new(Collector { tag: t as u8, got });
+                    barrier.wait();
+                    crate::bq::jitter(jit);
+                    catch_unwind(AssertUnwindSafe(|| <G0 as AttachGlobalEntrySink>::attach((sink, ())))).ok()
+                })
+            })
+            .collect();
+        hs.into_iter().map(|h| h.join().unwrap_or(None)).collect()
+    });
+    let winners: Vec<usize> = handles.iter().enumerate().filter(|(_, h)| h.is_some()).map(|(i, _)| i).collect();
+    let verdict: Result<(), Fail> = (|| {
+        vensure!(
+            winners.len() == 1,
+            if winners.len() > 1 { "global:double-attach-accepted" } else { "global:attach-panicked" },
+            "{nt} threads called attach() on an unattached global at the same instant: {} of them succeeded ({winners:?}); exactly one may",
+            winners.len()
+        );
+        let w = winners[0] as u8;
+        for k in 0..case.appends as u32 {
+            <G0 as GlobalEntrySink>::append(TestE(Id { p: 0, s: k }));
+        }
+        let g = got.lock().unwrap().clone();
+        vensure!(
+            g.len() == case.appends as usize && g.iter().all(|x| x.0 == w),
+            "global:wrong-destination",
+            "thread {w} won the attach race, but {} appends arrived as {:?}",
+            case.appends,
+            g.iter().take(5).collect::<Vec<_>>()
+        );
+        Ok(())
+    })();
+    // detach whatever was attached; the global must be free again
+    drop(handles);
+    verdict?;
+    vensure!(
+        !<G0 as AttachGlobalEntrySink>::is_attached(),
+        "global:still-attached-after-drop",
+        "the winning handle was dropped but the global is still attached"
+    );
+    Ok(vec!["nt"])
+}
+
 pub fn arb_op() -> impl Strategy<Value = Op> {
     prop_oneof![
         3 => (0u8..4).prop_map(Op::Attach),
@@ -1065,6 +1129,16 @@ pub fn run(ctx: &mut Ctx) {
                 .prop_map(|(threads, attached, jitter)| ConcCase { threads, attached, jitter })
         },
         check_concurrent,
+    );
+    ctx.explore(
+        SubCfg::new(
+            "c17-concurrent-attach",
+            "2-4 threads released together by a barrier each call attach() on the unattached global. Oracle: exactly one call succeeds, the others panic; 0-20 appends all reach the winner's sink; after its handle is dropped the global is unattached. Non-trivial = every case",
+            if q { 1_500 } else { 30_000 },
+        )
+        .shrink_iters(20),
+        || (any::<u8>(), prop::collection::vec(any::<u8>(), 0..4), 0u8..20).prop_map(|(threads, jitter, appends)| ConcAttachCase { threads, jitter, appends }),
+        check_concurrent_attach,
     );
     if ctx.replay.is_none() {
         forget_children(ctx);
